@@ -62,9 +62,33 @@ def _rows(sim, spec, limit=40):
     return out
 
 
+def _child_run():
+    """runs in a child interpreter (its own PYTHONHASHSEED): one compute() run, result as JSON on stdout"""
+    import json
+    import sys
+    job = json.loads(sys.stdin.read())
+    ev, d, job = _job(dict(job, hashseed=None))
+    sys.stdout.write(json.dumps({"ev": ev, "d": d}, default=str) + "\n")
+
+
 def _job(job):
     if job.get("cli"):
         return _cli_job(job)
+    if job.get("hashseed") is not None:
+        # the same seeded run in a child interpreter with another hash randomisation: nothing a run produces may depend on the iteration order of
+        # a set / the hash of a string (the checks themselves run with PYTHONHASHSEED=0)
+        import json
+        import subprocess
+        import sys
+        from nssverif import VERIF, REPO
+        env = dict(os.environ, PYTHONHASHSEED=str(job["hashseed"]), PYTHONPATH=VERIF, VERIF_REPO=REPO)
+        r = subprocess.run([sys.executable, "-c", "from drivers import c14; c14._child_run()"], input=json.dumps(job), env=env, cwd=VERIF,
+                           stdout=subprocess.PIPE, stderr=subprocess.PIPE, text=True, timeout=900)
+        try:
+            out = json.loads(r.stdout.strip().splitlines()[-1])
+        except Exception:
+            raise RuntimeError("C14 hash-seed child did not answer: " + r.stderr[-400:])
+        return out["ev"], out["d"], job
     ev, sim = pipeline.run_compute(job["spec"], job["seed"], job["sched"], job.get("write", False), None, keep_table=True)
     d = _digests(sim) if sim is not None else None
     if job["sched"] == "sync":
@@ -154,6 +178,13 @@ def run(tier="quick", seed=0):
     empty = {"mode": "Target", "thrown": 20, "obst": 600.0, "ra": 0.0, "dec": 1.5}
     for o, rd in ((True, True), (True, False), (False, True)):
         jobs.append({"spec": dict(empty, optical=o, radio=rd), "seed": seed, "sched": "sync", "base": ("Target", "mono", "none", "empty")})
+    # hash randomisation: the first quick base, both channels, in child interpreters with other PYTHONHASHSEED values, next to the in-process runs
+    for hs in ((1, 5, 3, 11) if thorough else (5, 3)):
+        jobs.append({"spec": spec_of(QUICK_BASES[0], True, True, thrown), "seed": seeds[0], "sched": "sync", "base": QUICK_BASES[0], "hashseed": hs})
+    # a power law of index EXACTLY 1 (the flat-in-log-E branch of the sampler) under two schedulers
+    for sch in ("sync", "threads-4"):
+        jobs.append({"spec": dict(spec_of(("Diffuse", "power", "none", 525), True, True, thrown), index=1.0), "seed": seeds[0], "sched": sch,
+                     "base": ("Diffuse", "power-index-1", "none", 525)})
     # survivor counts at the bottom of the range: a single throw at a narrow annulus leaves NO or exactly ONE surviving trajectory
     # depending on the seed (one row, every enabled stage's columns and the four integral keywords of each channel - the statistical
     # uncertainty of a one-event sum is undefined, the keyword is there all the same), a few throws leave one to three
